@@ -161,7 +161,7 @@ def _c12_nonlocal_class(v):
 def _c12_async_genexp(v):
     d, msg, mech, ver = _c12(v)
     return msg in ('asynchronous comprehension outside of an asynchronous function', "'await' outside async function") \
-        and mech.get('genexp') is True and ver >= (3, 7) and mech.get('innermost_scope') in ('funcdef', 'lambdef')
+        and mech.get('genexp') is True and ver >= (3, 7)
 
 
 @classifier('c12_fstring_backslash_312')
@@ -189,7 +189,8 @@ def _c12_dead(v):
     d, msg, mech, ver = _c12(v)
     import re
     return ver <= (3, 7) and mech.get('in_constant_false_block') is True and bool(re.match(
-        r"'(yield|return|continue|break|await|yield from)' (outside function|not properly in loop|outside loop|outside async function)$", msg))
+        r"('(yield|return|continue|break|await|yield from)' (outside function|not properly in loop|outside loop|outside async function)"
+        r"|from __future__ imports must occur at the beginning of the file)$", msg))
 
 
 @classifier('c12_raw_fstring_backslash_brace')
@@ -204,10 +205,13 @@ def _c12_raw_fstring(v):
 def _c12_ff(v):
     d, msg, mech, ver = _c12(v)
     ff = d.get('first_formfeed_indent_line')
-    if ff is None or d.get('line') is None or d['line'] < ff:
+    if ff is None or d.get('line') is None:
+        return False
+    # the form-feed line is the erroneous line, or the line of the token that ended the error node
+    if not (d['line'] >= ff or (d.get('next_leaf_line') is not None and d['line'] <= ff <= d['next_leaf_line'])):
         return False
     if v['kind'] == 'a_error_node':
-        return d.get('token_type') in ('INDENT', 'DEDENT', 'ERROR_DEDENT')
+        return True
     return (d.get('message') or '').startswith('IndentationError: ')
 
 
@@ -284,3 +288,38 @@ def _c20_stack(v):
 def _c20_shapes(v):
     """F-C20-3: helper code assumes the shape of a valid tree (expr_stmt targets, comparison operands) on a recovered tree"""
     return v['kind'] == 'normalizer_raised' and _site_match(v, C20_RECOVERED_SHAPE_SITES)
+
+
+@classifier('c12_name_used_in_lambda_then_global')
+def _c12_lambda_global(v):
+    """F-C12-12: every earlier occurrence of the name lies inside a lambda (its own scope), yet the global
+    declaration in the enclosing scope is reported as 'used prior to global declaration'"""
+    d, msg, mech, ver = _c12(v)
+    import re
+    return bool(re.match(r"name '[^']+' is (used prior to|assigned to before) global declaration$", msg)) \
+        and mech.get('earlier_occurrences_all_in_nested_lambda') is True
+
+
+@classifier('c12_genexp_as_class_argument_36')
+def _c12_class_genexp(v):
+    """F-C12-13: grammar 3.6: an unparenthesised generator expression as sole class argument (legal until 3.6)"""
+    d, msg, mech, ver = _c12(v)
+    anc = d.get('ancestors') or []
+    return ver <= (3, 6) and msg == 'invalid syntax' and len(anc) > 1 and anc[1] == 'classdef' and d.get('leaf_value') == '('
+
+
+@classifier('c12_await_as_name_36')
+def _c12_await_name(v):
+    """F-C12-14: grammar 3.6: `await` is an ordinary name outside async functions (e.g. a call `await(x)`), parso parses an await expression"""
+    d, msg, mech, ver = _c12(v)
+    return ver <= (3, 6) and msg == "'await' outside async function" and d.get('leaf_value') == 'await'
+
+
+@classifier('c12_type_param_name_then_global')
+def _c12_typeparam_global(v):
+    """F-C12-15: every earlier occurrence of the name is a PEP 695 type parameter (own scope), yet a later global
+    declaration in the enclosing scope is reported"""
+    d, msg, mech, ver = _c12(v)
+    import re
+    return ver >= (3, 12) and bool(re.match(r"name '[^']+' is (used prior to|assigned to before) global declaration$", msg)) \
+        and mech.get('earlier_occurrences_all_in_type_params') is True
